@@ -152,11 +152,28 @@ namespace pika::util::detail {
                 else
                 {
                     destroy();
-                    vptr = f_vptr;
+                    // the old target is gone: be empty until the new one exists
+                    vptr = get_empty_vtable();
+                    object = nullptr;
                     buffer = vtable::template allocate<T>(storage, function_storage_size);
+                    vptr = f_vptr;
                 }
-                // NOLINTNEXTLINE(bugprone-multi-level-implicit-pointer-conversion)
-                object = ::new (buffer) T(std::forward<F>(f));
+                try
+                {
+                    // NOLINTNEXTLINE(bugprone-multi-level-implicit-pointer-conversion)
+                    object = ::new (buffer) T(std::forward<F>(f));
+                }
+                catch (...)
+                {
+                    // T's constructor threw: release the raw storage and stay empty (before,
+                    // object kept pointing at the destroyed target / vptr named a type that
+                    // was never constructed)
+                    vtable::template _deallocate<T>(
+                        buffer, function_storage_size, /*destroy*/ false);
+                    vptr = get_empty_vtable();
+                    object = nullptr;
+                    throw;
+                }
             }
             else { base_type::reset(get_empty_vtable()); }
         }
